@@ -121,6 +121,11 @@ var c07Extra = []struct{ name, exit, prog string }{
 	{"block.closure-lexical-target", "ret-from", "(block vb (vtr 1) (let ((vf (lambda (vz) (return-from vb (vtr vz))))) (block vb (vtr 2) (funcall vf 3) (vtr 4)) (vtr 5)) (vtr 6))"},
 	{"return-from.value-same-block", "ret-from", "(block vb (vtr 1) (return-from vb (return-from vb (vtr 5))) (vtr 2))"},
 	{"return-from.value-same-block", "ret-nil", "(block nil (vtr 1) (return (return (vtr 5))) (vtr 2))"},
+	{"return-from.value-outer-block", "ret-from", "(block vb (vtr 1) (block vc (vtr 2) (return-from vb (return-from vc (vtr 5))) (vtr 3)) (vtr 4))"},
+	{"return-from.value-outer-block", "go-fwd", "(block vb (tagbody (vtr 1) (return-from vb (go 7)) (vtr 2) 7 (vtr 3)) (vtr 4))"},
+	{"return-from.value-outer-block", "go-back", "(block vb (tagbody (go 8) 7 (vtr 1) (go 9) 8 (vtr 2) (return-from vb (go 7)) (vtr 3) 9 (vtr 4)) (vtr 5))"},
+	{"return-from.value-outer-block", "ret-nil", "(block vb (vtr 1) (dolist (vx (quote (1 2))) (vtr vx) (return-from vb (return (vtr 5))) (vtr 3)) (vtr 4))"},
+	{"do.body-in-let", "ret-from", "(block vb (vtr 1) (let ((va1 0)) (do ((vi 0 (+ vi 1))) ((>= vi 2) (vtr 92)) (vtr vi) (return-from vb (vtr 5)) (vtr 91))) (vtr 2))"},
 	{"unwind-protect.nested", "ret-from", "(block vb (unwind-protect (unwind-protect (progn (vtr 1) (return-from vb (vtr 2))) (vtr 3)) (vtr 4)) (vtr 5))"},
 	{"unwind-protect.nested", "err-type", "(unwind-protect (unwind-protect (car (vtr 1)) (vtr 3)) (vtr 4))"},
 	{"unwind-protect.nested", "normal", "(unwind-protect (unwind-protect (vtr 1) (vtr 3)) (vtr 4))"},
@@ -203,7 +208,7 @@ func runC07(c *lib.Ctx) {
 		return c.Findings.Listed("C07", "cell="+cell+" exit="+exit+" ")
 	}
 	sweep := c07SweepCases()
-	evRun(c, sweep, c.Scale(2500, 60000), true, avoid, c07Relies)
+	evRun(c, sweep, c.Scale(15000, 250000), true, avoid, c07Relies)
 	keys := make([]string, 0, len(unknown))
 	for k := range unknown {
 		keys = append(keys, k)
